@@ -114,6 +114,23 @@ def handleC17 (toks : List String) : String :=
       let cosMax ← pRat; let np ← pNat; let ps ← pMany pV3 np; let nq ← pNat; let qs ← pMany pV3 nq; pEnd
       let r := qpPairs magR cosMax big ps qs
       pure (" ".intercalate (r.map fun e => match e.2 with | some k => toString k | none => "-1"))) rest
+  | "src" :: rest => run (do
+      -- which list a call uses: flags neighbors / cutoff / attribute given -> neighbors | cutoff | attr | err:assert | err:value
+      let nb ← pBool; let cu ← pBool; let att ← pBool; pEnd
+      let o := fun (b : Bool) (s : String) => if b then some s else none
+      match pickNeighbors (o nb "neighbors") (o cu "cutoff") (o att "attr") with
+      | .ok s => pure s
+      | .error .assert => pure (err "assert")
+      | .error .value => pure (err "value")) rest
+  | "srcs" :: rest => run (do
+      -- Strain(...): flags for the system (neighbors cutoff attr), basesystem given, flags baseneighbors / base attr
+      let nb ← pBool; let cu ← pBool; let att ← pBool; let bs ← pBool; let bn ← pBool; let ba ← pBool; pEnd
+      let o := fun (b : Bool) (s : String) => if b then some s else none
+      let base := if bs then some (o bn "baseneighbors", o cu "cutoff", o ba "attr") else none
+      match strainSources (o nb "neighbors") (o cu "cutoff") (o att "attr") base with
+      | .ok (a, b) => pure (a ++ " " ++ b.getD "none")
+      | .error .assert => pure (err "assert")
+      | .error .value => pure (err "value")) rest
   | _ => err "op"
 
 /-! ### objects (stateful part of the protocol)
